@@ -44,6 +44,22 @@ impl<T> Mutex<T> {
             data: StdMutex::new(t),
         }
     }
+
+    pub fn into_inner(self) -> LockResult<T> {
+        self.data.into_inner()
+    }
+}
+
+impl<T: Default> Default for Mutex<T> {
+    fn default() -> Mutex<T> {
+        Mutex::new(T::default())
+    }
+}
+
+impl<T: ?Sized + std::fmt::Debug> std::fmt::Debug for Mutex<T> {
+    fn fmt(&self, f: &mut std::fmt::Formatter<'_>) -> std::fmt::Result {
+        f.write_str("simrt::Mutex { .. }")
+    }
 }
 
 impl<T: ?Sized> Mutex<T> {
@@ -79,6 +95,35 @@ impl<T: ?Sized> Mutex<T> {
                 self.data.lock()
             }
         }
+    }
+
+    /// Non-blocking attempt (a scheduling point like every other operation).
+    pub fn try_lock(&self) -> std::sync::TryLockResult<MutexGuard<'_, T>> {
+        if let Some((w, me)) = world::current() {
+            let _ = obj_id(&self.id);
+            w.sched_point(me, "mutex.try_lock");
+            if self.locked.swap(true, AO::Relaxed) {
+                return Err(std::sync::TryLockError::WouldBlock);
+            }
+        }
+        match self.take_data() {
+            Ok(g) => Ok(MutexGuard {
+                mutex: self,
+                inner: Some(g),
+            }),
+            Err(p) => Err(std::sync::TryLockError::Poisoned(PoisonError::new(MutexGuard {
+                mutex: self,
+                inner: Some(p.into_inner()),
+            }))),
+        }
+    }
+
+    pub fn is_poisoned(&self) -> bool {
+        self.data.is_poisoned()
+    }
+
+    pub fn get_mut(&mut self) -> LockResult<&mut T> {
+        self.data.get_mut()
     }
 
     pub fn lock(&self) -> LockResult<MutexGuard<'_, T>> {
@@ -199,6 +244,39 @@ impl Condvar {
         }
     }
 
+    pub fn wait_while<'a, T, F>(&self, mut guard: MutexGuard<'a, T>, mut condition: F) -> LockResult<MutexGuard<'a, T>>
+    where
+        F: FnMut(&mut T) -> bool,
+    {
+        while condition(&mut *guard) {
+            guard = self.wait(guard)?;
+        }
+        Ok(guard)
+    }
+
+    pub fn wait_timeout_while<'a, T, F>(
+        &self,
+        mut guard: MutexGuard<'a, T>,
+        dur: Duration,
+        mut condition: F,
+    ) -> LockResult<(MutexGuard<'a, T>, WaitTimeoutResult)>
+    where
+        F: FnMut(&mut T) -> bool,
+    {
+        let start = crate::now_ns();
+        loop {
+            if !condition(&mut *guard) {
+                return Ok((guard, WaitTimeoutResult(false)));
+            }
+            let spent = Duration::from_nanos(crate::now_ns().saturating_sub(start));
+            let left = match dur.checked_sub(spent) {
+                Some(l) if !l.is_zero() => l,
+                _ => return Ok((guard, WaitTimeoutResult(true))),
+            };
+            guard = self.wait_timeout(guard, left)?.0;
+        }
+    }
+
     pub fn notify_one(&self) {
         if let Some((w, me)) = world::current() {
             let id = obj_id(&self.id);
@@ -261,12 +339,63 @@ pub mod atomic {
                     self.0
                         .compare_exchange(c, n, Ordering::SeqCst, Ordering::SeqCst)
                 }
+                pub fn compare_exchange_weak(
+                    &self,
+                    c: $t,
+                    n: $t,
+                    s: Ordering,
+                    f: Ordering,
+                ) -> Result<$t, $t> {
+                    self.compare_exchange(c, n, s, f)
+                }
+                pub fn fetch_max(&self, v: $t, _o: Ordering) -> $t {
+                    crate::world::sched("atomic.fetch_max");
+                    self.0.fetch_max(v, Ordering::SeqCst)
+                }
+                pub fn fetch_min(&self, v: $t, _o: Ordering) -> $t {
+                    crate::world::sched("atomic.fetch_min");
+                    self.0.fetch_min(v, Ordering::SeqCst)
+                }
+                pub fn fetch_or(&self, v: $t, _o: Ordering) -> $t {
+                    crate::world::sched("atomic.fetch_or");
+                    self.0.fetch_or(v, Ordering::SeqCst)
+                }
+                pub fn fetch_and(&self, v: $t, _o: Ordering) -> $t {
+                    crate::world::sched("atomic.fetch_and");
+                    self.0.fetch_and(v, Ordering::SeqCst)
+                }
+                pub fn fetch_update<F: FnMut($t) -> Option<$t>>(
+                    &self,
+                    _s: Ordering,
+                    _f: Ordering,
+                    mut f: F,
+                ) -> Result<$t, $t> {
+                    crate::world::sched("atomic.fetch_update");
+                    let cur = self.0.load(Ordering::SeqCst);
+                    match f(cur) {
+                        Some(n) => {
+                            self.0.store(n, Ordering::SeqCst);
+                            Ok(cur)
+                        }
+                        None => Err(cur),
+                    }
+                }
+                pub fn into_inner(self) -> $t {
+                    self.0.into_inner()
+                }
+                pub fn get_mut(&mut self) -> &mut $t {
+                    self.0.get_mut()
+                }
             }
         };
     }
     atomic_int!(AtomicUsize, std::sync::atomic::AtomicUsize, usize);
     atomic_int!(AtomicU64, std::sync::atomic::AtomicU64, u64);
     atomic_int!(AtomicIsize, std::sync::atomic::AtomicIsize, isize);
+    atomic_int!(AtomicU32, std::sync::atomic::AtomicU32, u32);
+    atomic_int!(AtomicI32, std::sync::atomic::AtomicI32, i32);
+    atomic_int!(AtomicI64, std::sync::atomic::AtomicI64, i64);
+    atomic_int!(AtomicU8, std::sync::atomic::AtomicU8, u8);
 
     #[derive(Debug, Default)]
     pub struct AtomicBool(std::sync::atomic::AtomicBool);
@@ -286,6 +415,21 @@ pub mod atomic {
             crate::world::sched("atomic.swap");
             self.0.swap(v, Ordering::SeqCst)
         }
+        pub fn fetch_or(&self, v: bool, _o: Ordering) -> bool {
+            crate::world::sched("atomic.fetch_or");
+            self.0.fetch_or(v, Ordering::SeqCst)
+        }
+        pub fn fetch_and(&self, v: bool, _o: Ordering) -> bool {
+            crate::world::sched("atomic.fetch_and");
+            self.0.fetch_and(v, Ordering::SeqCst)
+        }
+        pub fn compare_exchange(&self, c: bool, n: bool, _s: Ordering, _f: Ordering) -> Result<bool, bool> {
+            crate::world::sched("atomic.cas");
+            self.0.compare_exchange(c, n, Ordering::SeqCst, Ordering::SeqCst)
+        }
+        pub fn compare_exchange_weak(&self, c: bool, n: bool, s: Ordering, f: Ordering) -> Result<bool, bool> {
+            self.compare_exchange(c, n, s, f)
+        }
     }
 }
 
@@ -298,7 +442,7 @@ pub mod mpsc {
     use std::sync::atomic::{AtomicBool, AtomicU64, AtomicUsize, Ordering as AO};
     use std::sync::{Arc, Mutex as StdMutex};
 
-    pub use std::sync::mpsc::{RecvError, SendError, TryRecvError};
+    pub use std::sync::mpsc::{RecvError, RecvTimeoutError, SendError, TryRecvError};
 
     struct Chan<T> {
         id: AtomicU64,
@@ -403,8 +547,46 @@ pub mod mpsc {
             }
         }
 
+        pub fn recv_timeout(&self, dur: std::time::Duration) -> Result<T, RecvTimeoutError> {
+            let (w, me) = match world::current() {
+                Some(c) => c,
+                None => {
+                    return self.ch.q.lock().unwrap().pop_front().ok_or(RecvTimeoutError::Timeout);
+                }
+            };
+            let id = super::obj_id(&self.ch.id);
+            w.sched_point(me, "mpsc.recv_timeout");
+            let deadline = w.with(|g| g.now.saturating_add(dur.as_nanos() as u64));
+            loop {
+                if let Some(v) = self.ch.q.lock().unwrap().pop_front() {
+                    return Ok(v);
+                }
+                if self.ch.senders.load(AO::Relaxed) == 0 {
+                    return Err(RecvTimeoutError::Disconnected);
+                }
+                if w.with(|g| g.now) >= deadline {
+                    return Err(RecvTimeoutError::Timeout);
+                }
+                w.block(me, Reason::Recv(id), Some(deadline));
+            }
+        }
+
+        pub fn try_iter(&self) -> TryIter<'_, T> {
+            TryIter { rx: self }
+        }
+
         pub fn iter(&self) -> Iter<'_, T> {
             Iter { rx: self }
+        }
+    }
+
+    pub struct TryIter<'a, T> {
+        rx: &'a Receiver<T>,
+    }
+    impl<T> Iterator for TryIter<'_, T> {
+        type Item = T;
+        fn next(&mut self) -> Option<T> {
+            self.rx.try_recv().ok()
         }
     }
 
